@@ -115,9 +115,14 @@ fn check_fault(bs: &[Backend], f: &Fault, rep: &mut Report) {
     let lenient = unseal_counting(b.name, f.purpose, false, &f.key, &text, &f.aad);
     let strict = unseal_counting(b.name, f.purpose, true, &f.key, &text, &f.aad);
     rep.count(&format!("error.{}", lenient.0));
-    if lenient.0 == "ok" {
-        // C02's subject; here only noted (C02 reports it as its violation)
-        rep.notes.push(format!("{} {}: faulted token accepted ({}); see C02", b.name, f.purpose, f.kind));
+    if lenient.0 == "ok" || strict.0 == "PayloadError" {
+        // the token is a modified one (or is offered under another key / assertion / header), so it is NOT
+        // authentic: the caller's decoder (and validator) ran on unauthenticated bytes
+        rep.violation(
+            &format!("c12.{}.{}.ran-on-unauthenticated", b.name, f.purpose),
+            format!("{} {}: a token that is not the one sealed [fault {}: {}] reached the payload decoder ({} call(s)) and the validator ({} call(s)); result {} / {} depending on the payload type", b.name, f.purpose, f.kind, f.detail, lenient.1.max(strict.1), lenient.2, lenient.0, strict.0),
+            fault_json(bs, f),
+        );
         return;
     }
     if lenient.1 != 0 || lenient.2 != 0 || strict.1 != 0 || strict.2 != 0 {
